@@ -251,6 +251,7 @@ func c17RPlan(stream []byte, start int, cuts []int) ([]c17RCall, error) {
 type c17RBinlog struct {
 	stream  []byte
 	start   int
+	end     int        // position after the last callback
 	plan    []c17RCall // with the commits in place
 	master  bool
 	after   func(i int, c c17RCall, direct bool) // called after every callback, from Run's goroutine
@@ -318,10 +319,10 @@ func (b *c17RBinlog) Run(offset int64, snapshotMeta []byte, controlMeta []byte, 
 		return err
 	}
 	<-b.stop
-	if b.master && len(b.plan) > 0 {
+	if b.master {
 		// like the fsbinlog writer at shutdown: what the engine holds is reported as committed (the engine is a ready
 		// master whose queue was applied in binlogWaitReady, Commit only publishes the position here)
-		if err := engine.Commit(int64(b.plan[len(b.plan)-1].NewPos), nil, int64(b.plan[len(b.plan)-1].NewPos)); err != nil {
+		if err := engine.Commit(int64(b.end), nil, int64(b.end)); err != nil {
 			return err
 		}
 	}
@@ -340,7 +341,17 @@ func (b *c17RBinlog) RequestShutdown()                                         {
 
 // ---------------------------------------------------------------------------------------------------
 
+// c17RStart is a database a life starts from: nil = the empty database the engine created (stored offset 0), otherwise
+// a kill image of the first phase (second crash: the replay FROM an image is itself cut and killed).
+type c17RStart struct {
+	Offset int
+	Key    string // stored offset | rows
+	Hash   uint64
+	Files  map[string][]byte
+}
+
 type c17RScript struct {
+	Start   *c17RStart
 	Master  bool
 	Period  time.Duration // Options.CommitEvery: 1 ns = "commit period always elapsed", 1 h = "elapsed only before the first delayed commit"
 	Cuts    []int
@@ -352,7 +363,11 @@ func (s c17RScript) String() string {
 	if s.Master {
 		role = "master-restart"
 	}
-	return fmt.Sprintf("role=%s commit-period=%v window-ends=%v commits-before-calls=%v", role, s.Period, s.Cuts, s.Commits)
+	from := ""
+	if s.Start != nil {
+		from = fmt.Sprintf("start=kill-image{%s} ", s.Start.Key)
+	}
+	return fmt.Sprintf("%srole=%s commit-period=%v window-ends=%v commits-before-calls=%v", from, role, s.Period, s.Cuts, s.Commits)
 }
 
 type c17RFamily struct {
@@ -364,6 +379,9 @@ type c17RFamily struct {
 	scratch  string // directory of the family's databases: tmpfs when available (every life ends with SQLite commits, whose fsyncs on a shared disk cost ~100 ms per life and mean nothing for a process-kill image)
 	seq      atomic.Int64
 	images   sync.Map // content hash -> struct{}
+	collect  atomic.Bool // first phase: kill images are registered as start states of the second phase
+	startMu  sync.Mutex
+	starts   map[string]*c17RStart // logical content (stored offset | rows) -> representative image (smallest content hash: deterministic)
 
 	lives, calls, partialDirect, partialDirectCommitted, imagesSeen, imagesChecked, restarts atomic.Int64
 	sigMu                                                                                     sync.Mutex
@@ -424,7 +442,7 @@ func c17RHashDB(dir string) (uint64, map[string][]byte, error) {
 }
 
 // judge runs the crash-state oracle on one image (db files) against the family's binlog.
-func (f *c17RFamily) judge(files map[string][]byte, s c17RScript, plan []c17RCall, at int, killed bool) error {
+func (f *c17RFamily) judge(files map[string][]byte, hash uint64, s c17RScript, plan []c17RCall, at int, killed bool) error {
 	dir := filepath.Join(f.scratch, fmt.Sprintf("ri%06d", f.seq.Add(1)))
 	defer os.RemoveAll(dir)
 	if err := c17CopyDir(f.log.Dir, dir, false); err != nil {
@@ -456,6 +474,16 @@ func (f *c17RFamily) judge(files map[string][]byte, s c17RScript, plan []c17RCal
 		delete(vs[i].Detail, "acked_writes")
 	}
 	f.report(vs)
+	if killed && f.collect.Load() {
+		if db, err := c17ReadDB(dir); err == nil && db.HasOff { // plain SQLite; rolls a hot journal back in this private copy
+			k := fmt.Sprintf("%d|%s", db.Offset, c17StateKey(db.Rows))
+			f.startMu.Lock()
+			if old := f.starts[k]; old == nil || hash < old.Hash {
+				f.starts[k] = &c17RStart{Offset: int(db.Offset), Key: k, Hash: hash, Files: files}
+			}
+			f.startMu.Unlock()
+		}
+	}
 	if key != "" {
 		f.rep.State(key)
 		if nt {
@@ -481,15 +509,30 @@ func (f *c17RFamily) report(vs []c17Verdict) {
 func (f *c17RFamily) life(s c17RScript, base []c17RCall) error {
 	dir := filepath.Join(f.scratch, fmt.Sprintf("rl%06d", f.seq.Add(1)))
 	defer os.RemoveAll(dir)
-	if err := c17CopyDir(f.template, dir, true); err != nil {
-		return err
+	start := 0
+	if s.Start == nil {
+		if err := c17CopyDir(f.template, dir, true); err != nil {
+			return err
+		}
+	} else {
+		start = s.Start.Offset
+		for _, sub := range []string{"bl", "db"} {
+			if err := os.MkdirAll(filepath.Join(dir, sub), 0755); err != nil {
+				return err
+			}
+		}
+		for name, d := range s.Start.Files {
+			if err := os.WriteFile(filepath.Join(dir, "db", name), d, 0644); err != nil {
+				return err
+			}
+		}
 	}
 	// the plan with the commits in place. Replica: one Commit always follows the last callback (as the reader does when
 	// it reaches the end). Master restart: the binlog turns the engine into a ready master right after the last
 	// callback - events still queued are applied by the engine itself (binlogWaitReady) - and commits at shutdown.
 	var plan []c17RCall
 	ci := 0
-	pos := 0
+	pos := start
 	for i, c := range base {
 		for ci < len(s.Commits) && s.Commits[ci] == i {
 			plan = append(plan, c17RCall{Kind: "commit", From: pos, To: pos, NewPos: pos})
@@ -508,7 +551,7 @@ func (f *c17RFamily) life(s c17RScript, base []c17RCall) error {
 	// (SQLite commit) while one is pending makes that Apply's transaction durable on its own
 	pendingPartial := false
 	lastStamp := ""
-	bl := &c17RBinlog{stream: f.log.Stream, plan: plan, master: s.Master, stop: make(chan struct{})}
+	bl := &c17RBinlog{stream: f.log.Stream, start: start, end: pos, plan: plan, master: s.Master, stop: make(chan struct{})}
 	bl.after = func(i int, c c17RCall, direct bool) {
 		f.calls.Add(1)
 		if direct && c.Kind != "commit" {
@@ -540,7 +583,7 @@ func (f *c17RFamily) life(s c17RScript, base []c17RCall) error {
 			return
 		}
 		f.imagesChecked.Add(1)
-		if err := f.judge(files, s, plan, i, true); err != nil {
+		if err := f.judge(files, h, s, plan, i, true); err != nil {
 			imgErr = err
 		}
 	}
@@ -581,7 +624,7 @@ func (f *c17RFamily) life(s c17RScript, base []c17RCall) error {
 	}
 	if _, dup := f.images.LoadOrStore(h^0x5bd1e995, struct{}{}); !dup { // closed databases are judged as completed runs
 		f.imagesChecked.Add(1)
-		return f.judge(files, s, plan, len(plan)-1, false)
+		return f.judge(files, h, s, plan, len(plan)-1, false)
 	}
 	return nil
 }
@@ -608,7 +651,7 @@ func c17RSubsets(lo, hi, k int, fn func([]int)) {
 func c17ReplayFamily(cfg *c17Cfg, rep *mc.Report, emit func([]c17Verdict)) error {
 	t0 := time.Now()
 	maxCuts, maxCommits := 1, mc.Pick(1, 2)
-	f := &c17RFamily{cfg: cfg, rep: rep, emit: emit, sigs: map[string]int{}}
+	f := &c17RFamily{cfg: cfg, rep: rep, emit: emit, sigs: map[string]int{}, starts: map[string]*c17RStart{}}
 	var err error
 	f.scratch = filepath.Join(cfg.scratch, "replay")
 	if d, e := os.MkdirTemp("/dev/shm", fmt.Sprintf("vcheck_C17_replay_%d_", os.Getpid())); e == nil {
@@ -644,13 +687,21 @@ func c17ReplayFamily(cfg *c17Cfg, rep *mc.Report, emit func([]c17Verdict)) error
 		s    c17RScript
 		base []c17RCall
 	}
-	var jobs []job
 	cutSets := 0
 	maxCalls := 0
-	var planErr error
-	c17RSubsetsOfCuts := func(fn func([]int)) {
+	scripts := 0
+	var skipped atomic.Int64
+	shard, shards := mc.ShardFromEnv()
+	// phase runs every script (cut sets x commit sets x roles x periods) from the given start state
+	phase := func(st *c17RStart, commitBound int) error {
+		start := 0
+		if st != nil {
+			start = st.Offset
+		}
+		var jobs []job
+		var planErr error
 		var positions []int
-		for k := 4; k < L; k += 4 {
+		for k := start + 4; k < L; k += 4 {
 			positions = append(positions, k)
 		}
 		c17RSubsets(0, len(positions), maxCuts, func(idx []int) {
@@ -658,70 +709,96 @@ func c17ReplayFamily(cfg *c17Cfg, rep *mc.Report, emit func([]c17Verdict)) error
 			for i, v := range idx {
 				cuts[i] = positions[v]
 			}
-			fn(cuts)
-		})
-	}
-	c17RSubsetsOfCuts(func(cuts []int) {
-		base, err := c17RPlan(f.log.Stream, 0, cuts)
-		if err != nil {
-			planErr = fmt.Errorf("window ends %v: %w", cuts, err)
-			return
-		}
-		cutSets++
-		if len(base) > maxCalls {
-			maxCalls = len(base)
-		}
-		c17RSubsets(0, len(base), maxCommits, func(commits []int) {
-			for _, master := range []bool{false, true} {
-				for _, period := range []time.Duration{time.Nanosecond, time.Hour} {
-					jobs = append(jobs, job{c17RScript{Master: master, Period: period, Cuts: cuts, Commits: commits}, base})
-				}
+			base, err := c17RPlan(f.log.Stream, start, cuts)
+			if err != nil {
+				planErr = fmt.Errorf("start %d window ends %v: %w", start, cuts, err)
+				return
 			}
-		})
-	})
-	if planErr != nil {
-		return fmt.Errorf("replay family: reader model: %w", planErr)
-	}
-	shard, shards := mc.ShardFromEnv()
-	workers := runtime.GOMAXPROCS(0)
-	if workers > 16 {
-		workers = 16
-	}
-	ch := make(chan job, 64)
-	var wg sync.WaitGroup
-	var firstErr atomic.Value
-	var skipped atomic.Int64
-	for w := 0; w < workers; w++ {
-		wg.Add(1)
-		go func() {
-			defer wg.Done()
-			for j := range ch {
-				if mc.Expired() || firstErr.Load() != nil {
-					skipped.Add(1)
-					continue
-				}
-				if err := f.life(j.s, j.base); err != nil {
-					firstErr.Store(err.Error())
-				}
+			cutSets++
+			if len(base) > maxCalls {
+				maxCalls = len(base)
 			}
-		}()
-	}
-	for i, j := range jobs {
-		if i%shards == shard {
-			ch <- j
+			c17RSubsets(0, len(base), commitBound, func(commits []int) {
+				for _, master := range []bool{false, true} {
+					for _, period := range []time.Duration{time.Nanosecond, time.Hour} {
+						jobs = append(jobs, job{c17RScript{Start: st, Master: master, Period: period, Cuts: cuts, Commits: commits}, base})
+					}
+				}
+			})
+		})
+		if planErr != nil {
+			return fmt.Errorf("replay family: reader model: %w", planErr)
 		}
+		scripts += len(jobs)
+		workers := runtime.GOMAXPROCS(0)
+		if workers > 16 {
+			workers = 16
+		}
+		ch := make(chan job, 64)
+		var wg sync.WaitGroup
+		var firstErr atomic.Value
+		for w := 0; w < workers; w++ {
+			wg.Add(1)
+			go func() {
+				defer wg.Done()
+				for j := range ch {
+					if mc.Expired() || firstErr.Load() != nil {
+						skipped.Add(1)
+						continue
+					}
+					if err := f.life(j.s, j.base); err != nil {
+						firstErr.Store(err.Error())
+					}
+				}
+			}()
+		}
+		for i, j := range jobs {
+			if i%shards == shard {
+				ch <- j
+			}
+		}
+		close(ch)
+		wg.Wait()
+		if v := firstErr.Load(); v != nil {
+			return fmt.Errorf("replay family: %s", v.(string))
+		}
+		return nil
 	}
-	close(ch)
-	wg.Wait()
-	if v := firstErr.Load(); v != nil {
-		return fmt.Errorf("replay family: %s", v.(string))
+	// first phase: lives from the empty database; its kill images are the start states of the second phase
+	f.collect.Store(true)
+	if err := phase(nil, maxCommits); err != nil {
+		return err
+	}
+	f.collect.Store(false)
+	firstLives, firstScripts := f.lives.Load(), scripts
+	// second phase (thorough tier): a second crash - the replay FROM every logically distinct kill image of the first
+	// phase (stored offset > 0: the engine starts with everything queued until the first Commit) is cut and killed the
+	// same way. Skipped when the first phase already reported violations (the images are then not trustworthy starts).
+	secondCommits := mc.Pick(-1, 1)
+	var startKeys []string
+	if secondCommits >= 0 && len(f.sigs) == 0 && shards == 1 {
+		for k := range f.starts {
+			startKeys = append(startKeys, k)
+		}
+		sort.Strings(startKeys)
+		for _, k := range startKeys {
+			if err := phase(f.starts[k], secondCommits); err != nil {
+				return err
+			}
+		}
 	}
 	if skipped.Load() > 0 {
 		rep.Cap("wall_budget")
 	}
-	rep.Bounds["replay_family"] = fmt.Sprintf("history = binlog files written by the real master engine + real fsbinlog for the scripted workload's %d writes (%d bytes, %d events, service records incl. rotation); scripts = roles {replica, master restart} x commit period {always elapsed (1ns), elapsed only initially (1h)} x every set of <= %d read-window ends at 4-byte boundaries inside the stream (%d sets) x every set of <= %d callback boundaries with a Commit(position) (replica: a Commit always follows the last callback; master restart: ready right after the last callback, Commit at shutdown); image of the database files after EVERY callback", cfg.writes, L, len(f.log.Events), maxCuts, cutSets, maxCommits)
+	second := "not in this tier"
+	if secondCommits >= 0 {
+		second = fmt.Sprintf("the same scripts with <= %d Commit boundaries, started from every logically distinct kill image of the first phase (%d start states: %v)", secondCommits, len(startKeys), startKeys)
+	}
+	rep.Bounds["replay_family"] = fmt.Sprintf("history = binlog files written by the real master engine + real fsbinlog for the scripted workload's %d writes (%d bytes, %d events, service records incl. rotation); scripts = roles {replica, master restart} x commit period {always elapsed (1ns), elapsed only initially (1h)} x every set of <= %d read-window ends at 4-byte boundaries inside the stream x every set of <= %d callback boundaries with a Commit(position) (replica: a Commit always follows the last callback; master restart: ready right after the last callback, Commit at shutdown); image of the database files after EVERY callback; second crash during the replay from an image: %s", cfg.writes, L, len(f.log.Events), maxCuts, maxCommits, second)
 	rep.Parts["replay_family"] = map[string]any{
-		"scripts": len(jobs), "engine_lives": f.lives.Load(), "callbacks": f.calls.Load(), "max_apply_skip_calls_per_script": maxCalls,
+		"scripts": scripts, "scripts_from_empty_database": firstScripts, "engine_lives": f.lives.Load(), "engine_lives_from_empty_database": firstLives,
+		"start_states_of_second_phase": len(startKeys), "cut_sets": cutSets,
+		"callbacks": f.calls.Load(), "max_apply_skip_calls_per_script": maxCalls,
 		"direct_applies_answered_with_expected_error_after_applying_events": f.partialDirect.Load(),
 		"of_those_made_durable_by_a_commit_callback_before_any_other_direct_callback": f.partialDirectCommitted.Load(),
 		"images_after_callbacks": f.imagesSeen.Load(), "distinct_images_judged": f.imagesChecked.Load(), "restarts_on_images": f.restarts.Load(),
